@@ -539,7 +539,8 @@ pub struct CloseScript {
 }
 
 fn close_end(allow_block: bool) -> impl Strategy<Value = (Vec<WOp>, Vec<ROp>, bool)> {
-    let w = prop::collection::vec(prop_oneof![4 => (1u32..4).prop_map(WOp::Write), 1 => Just(WOp::Yield), 1 => Just(WOp::Shutdown)], 0..=4);
+    // (vectored writes take their own path to the credit and closed-flag checks)
+    let w = prop::collection::vec(prop_oneof![4 => (1u32..4).prop_map(WOp::Write), 2 => (1u32..3, 0u32..3, 1u32..3).prop_map(|(a, b, c)| WOp::WriteV(vec![a, b, c])), 1 => Just(WOp::Yield), 1 => Just(WOp::Shutdown)], 0..=4);
     let r = prop::collection::vec(prop_oneof![3 => Just(ROp::Read(64)), 1 => Just(ROp::Fill(1)), 1 => Just(ROp::Yield), if allow_block { 2 } else { 0 } => Just(ROp::ToEof(64))], 0..4);
     (w, r, any::<bool>())
 }
